@@ -375,6 +375,9 @@ This decides `no new unaudited panic/recursion/loop site`, the enumerated necess
     // the audit entry of inner_name's format_ident! ("parent is a generated type name") is tied to the one caller that builds
     // the parent from a string it splits itself
     crate::rules::c07::nested_choice_ident(m, ctx, "C08.ident");
+    // the audit entries of the generators' format_ident! calls rely on member names made of identifier characters: the one
+    // name the lexer *builds* (the synthetic member of a [[ ]] group) is evaluated for every kind of first component (= C05.group)
+    crate::rules::c05::group_names(m, ctx, "C08.groupname");
     acyclic(m, ctx);
     slice_totality(m, ctx);
     minmax_guard(m, ctx);
